@@ -189,6 +189,98 @@ def Reader.needsIndex : Reader → Bool
   | .resultRows | .competition => false
   | .collectScores | .reportChain | .precursorQuants => true
 
+/-- The package's LOOKUP CALLERS: functions outside `protein_groups.py` that are handed a collection and
+    a file (or list) of EXTERNAL ROWS, look the proteins of every row up in the collection and decide from
+    the answer what happens to the row.
+    * `psmUpdate` — `pipeline.update_fragpipe_results.update_fragpipe_psm_file(psm.tsv, pg, annotations, …)`:
+      `get_protein_groups(proteins)` per PSM row, `is_missing` / `is_shared` on the list of groups, then the
+      row is written with `row_protein_groups[0][0]` as its protein when that leader is one of the row's
+      proteins (update_fragpipe_results.py:221-268);
+    * `fragpipeQuant` / `fragpipeIon` — `quant.fragpipe.add_precursor_quants` (psm.tsv) and
+      `update_precursor_quants_single` (combined_ion.tsv), also reached through
+      `add_precursor_quants_multiple`, `generate_fragpipe_protein_file`, `generate_fragpipe_combined_protein_file`;
+    * `sageQuant` / `sageLfq` — `quant.sage.add_precursor_quants` (results.sage.tsv) and
+      `update_precursor_quants_single` (lfq.tsv);
+    * `maxquantQuant` — `quant.maxquant.add_precursor_quants` (evidence.txt);
+    * `collectScores` — `ProteinScoringStrategy.collect_peptide_scores_per_protein` (peptide → proteins dict);
+      all of these: `get_protein_group_idxs(proteins)` per row, `is_missing` / `is_shared` on the position
+      set (`discard_shared_peptides` is `True` at every call site of the package), then the row is
+      attached to the result row / info list at the one position;
+    * `annotate` — `columns.FragpipeProteinAnnotationsColumns.append_columns` (one `get_protein_groups` per
+      result row, annotated with `row_protein_groups[0][0]`; `[][0]` raises `IndexError`). -/
+inductive Caller
+  | psmUpdate | fragpipeQuant | fragpipeIon | sageQuant | sageLfq | maxquantQuant | collectScores | annotate
+deriving DecidableEq, Repr
+
+/-- what a lookup caller observably does with one external row -/
+inductive RowAns (P : Type) where
+  /-- not written / attached nowhere (missing, shared between groups, or the leader is not a row protein) -/
+  | dropped
+  /-- `update_fragpipe_psm_file`: the row was written with this leading protein -/
+  | written (lead : P)
+  /-- the quantification callers: the row was attached to the result row at this position -/
+  | attached (i : Nat)
+  /-- `append_columns`: the row is annotated with the first protein of `row_protein_groups[0]`, where the
+      list comes from a Python set — any of these leaders (exactly one when the row hits one group) -/
+  | leaders (l : List P)
+deriving DecidableEq, Repr
+
+/-- one PSM row of `update_fragpipe_psm_file` (update_fragpipe_results.py:224-268) -/
+def psmRow (pg : PG P) (row : List P) : Except Err (RowAns P) :=
+  match getGroups pg row true with
+  | .error e => .error e
+  | .ok gs =>
+    if isMissingGroups gs then .ok .dropped
+    else if isSharedGroups gs then .ok .dropped
+    else match gs.head? with          -- `row_protein_groups[0][0]`
+      | none => .error .indexError
+      | some x => match x.2.head? with
+        | none => .error .indexError
+        | some a => .ok (if a ∈ row then .written a else .dropped)
+
+/-- one row of the quantification callers / of `collect_peptide_scores_per_protein`
+    (quant/maxquant.py:77-121, quant/fragpipe.py:67-98,159-213, quant/sage.py:71-108,178-241,
+    scoring_strategy.py:200-224) with `discard_shared_peptides = True` -/
+def quantRow (pg : PG P) (row : List P) : Except Err (RowAns P) :=
+  match getIdxs pg row true with
+  | .error e => .error e
+  | .ok is =>
+    if isMissingIdxs is then .ok .dropped
+    else if isSharedIdxs is then .ok .dropped
+    else match is.head? with          -- `for protein_group_idx in protein_group_idxs` over the one element
+      | some (some i) => .ok (.attached i)
+      | _ => .ok .dropped
+
+/-- one result row of `FragpipeProteinAnnotationsColumns.append_columns`
+    (columns/fragpipe_protein_annotations.py:53-57) -/
+def annotRow (pg : PG P) (row : List P) : Except Err (RowAns P) :=
+  match getGroups pg row true with
+  | .error e => .error e
+  | .ok gs =>
+    if gs.isEmpty then .error .indexError
+    else .ok (.leaders (gs.filterMap (fun x => x.2.head?)))
+
+def rowAnswer : Caller → PG P → List P → Except Err (RowAns P)
+  | .psmUpdate => psmRow
+  | .annotate => annotRow
+  | _ => quantRow
+
+/-- the rows are processed in file order; the first lookup that raises ends the call -/
+def mapRows {α β : Type} (f : α → Except Err β) : List α → Except Err (List β)
+  | [] => .ok []
+  | r :: rs =>
+    match f r with
+    | .error e => .error e
+    | .ok a =>
+      match mapRows f rs with
+      | .error e => .error e
+      | .ok l => .ok (a :: l)
+
+/-- what a lookup caller does with the rows of its file, given the collection it is handed: a function of
+    that collection and the rows — the model has no other state -/
+def callerAnswer (c : Caller) (pg : PG P) (rows : List (List P)) : Except Err (List (RowAns P)) :=
+  mapRows (rowAnswer c pg) rows
+
 inductive Op (P : Type) where
   | append (g : List P) | extend (gs : List (List P)) | createIndex
   | merge (sup p : P) | removeEmpty | addUnseen (other : List (List P))
@@ -208,6 +300,9 @@ inductive Op (P : Type) where
   /-- a call of one of the package's readers with this collection as argument: no change of the
       collection; a reader that uses the index raises the invalid-index error while the flag is down -/
   | read (r : Reader)
+  /-- a call of one of the package's lookup callers with this collection and these external rows (the
+      protein list of each row): no change of the collection; the answer is `callerAnswer` -/
+  | rows (c : Caller) (rows : List (List P))
 deriving Repr
 
 inductive Out (P : Type) where
@@ -221,6 +316,7 @@ inductive Out (P : Type) where
   | bool (b : Bool)
   | nat (n : Nat)
   | obsolete (l : List (Nat × List P))
+  | rows (l : List (RowAns P))
 deriving Repr
 
 def Op.isMutator : Op P → Bool
@@ -264,6 +360,7 @@ def step (pg : PG P) : Op P → PG P × Out P
   | .size         => (pg, .nat pg.groups.length)
   | .allProteins  => (pg, .prots (allProteins pg))
   | .read r       => (pg, if r.needsIndex && !pg.valid then .err .invalidIndex else .unit)
+  | .rows c rows  => (pg, outOf .rows (callerAnswer c pg rows))
 
 /-- a whole history: final state (outputs are produced by `trace`) -/
 def run (pg : PG P) (ops : List (Op P)) : PG P := ops.foldl (fun s op => (step s op).1) pg
@@ -272,6 +369,13 @@ def run (pg : PG P) (ops : List (Op P)) : PG P := ops.foldl (fun s op => (step s
 def trace (pg : PG P) : List (Op P) → List (PG P × Out P)
   | [] => []
   | op :: ops => let r := step pg op; r :: trace r.1 ops
+
+/-- A process with SEVERAL live collections (`states`, one per `ProteinGroups` object): the call `op` is made
+    on collection `k` — the step of that collection alone; `none` when there is no such collection. -/
+def stepAt (states : List (PG P)) (k : Nat) (op : Op P) : Option (List (PG P) × Out P) :=
+  match states[k]? with
+  | none => none
+  | some pg => let r := step pg op; some (states.set k r.1, r.2)
 
 /-- the dict view of the index: one entry per key with the value a lookup returns -/
 def indexItems (pg : PG P) : List (P × Nat) :=
